@@ -184,6 +184,7 @@ type pstate struct {
 	concIdx int
 	opaque  []string
 	ended   bool
+	syncMaps map[*value]*syncMapState
 }
 
 type inputRec struct {
